@@ -1,6 +1,9 @@
 """C15 — the result of a load does not depend on how the text is laid out"""
 import copy
 import io
+import random
+import re
+import string
 
 from .. import cfggen, cfgrun, cfgstream, core, schemafam as F
 
@@ -11,13 +14,72 @@ RULE = ("texts of the C01 corpus (valid and invalid) and texts for the shipped l
         "arbitrary ('+') keys named like a section of the same container (key line before / between / after the section), and a "
         "second schema stream has section types that override the inherited key type with inherited key names that are not "
         "fixed points of the new one (case-sensitive base with mixed-case keys under a case-insensitive derived type and vice versa). "
+        "A third stream gives free-text keys values whose LAST character is a punctuation mark, above all the marks that other line-oriented "
+        "formats read as 'continued on the next line' (Windows / UNC paths with their final backslash, '^', '&', ',' ...), and gives values "
+        "(of any datatype) THROUGH a definition, the plain or braced reference in mixed case being the entire value of the key or of a "
+        "further definition; the rewrites also change the letter case of the references inside values and insert blank / comment lines "
+        "(comments ending in such a mark too) AFTER any line, the last line of a section and of the text included. "
         "non-trivial = at least two physical lines; distinct by (schema, canonical text, rewritten text)")
 
 WS = [" ", "\t", "  ", "\x0c", " ", " ", "\x0b", ""]
 
 
-def relayout(rng, elab, items, tyname=None, depth=0):
-    """rewritten physical lines for an item tree"""
+# characters that line-oriented formats other than this one read, at the end of a line, as "continued on the next line" (shell,
+# Python, C: '\\'; cmd.exe: '^'; PowerShell: '`'; Fortran: '&'; Basic: '_'; operators and separators left hanging: ', + - |')
+CONT = ["\\", "\\", "\\\\", "^", "`", "&", "_", ",", "+", "-", "|"]
+# datatypes that convert every text
+FREE_TEXT = ("string", "null", "string-list", "zcvdt.marker")
+
+
+def _tail(rng):
+    return rng.choice(CONT) if rng.random() < 0.7 else rng.choice(string.punctuation)
+
+
+def edge_value(rng):
+    """a value whose last character is a punctuation mark (mostly one of CONT): directory names written with their final
+    separator, patterns, a mark alone"""
+    return rng.choice(["C:\\data\\docs", "\\\\srv\\share", "D:", "a b", "x", "^\\d+", "one, two", ""]) + _tail(rng)
+
+
+def edge_filler(rng):
+    """a blank line, or a comment line whose last character is a punctuation mark (mostly one of CONT)"""
+    if rng.random() < 0.25:
+        return rng.choice(["", " ", "\t"])
+    return rng.choice(["", " ", "\t"]) + "#" + rng.choice(["", " ", " see C:\\tmp", " k v", " <x>", " %define q"]) + _tail(rng) + rng.choice(["", "", " "])
+
+
+_REF_RX = re.compile(r"\$\$|\$\{([a-zA-Z_][a-zA-Z0-9_]*)|\$([a-zA-Z_][a-zA-Z0-9_]*)")
+
+
+def recase_refs(rng, text, how="mixed"):
+    """the text with the letter case of the referenced names changed ('$name', '${name}'; '$$' stands for a dollar sign and
+    '$(NAME)' names an environment variable, whose case matters: both left alone): every name in lower case, every name in
+    upper case, or letter by letter at random"""
+    def g(name):
+        return name.lower() if how == "lower" else name.upper() if how == "upper" else cfggen._case_variant(rng, name)
+
+    def f(m):
+        if m.group(1) is not None:
+            return "${" + g(m.group(1))
+        if m.group(2) is not None:
+            return "$" + g(m.group(2))
+        return m.group(0)
+    return _REF_RX.sub(f, text)
+
+
+def relayout_text(rng, elab, items, rng2):
+    """rewritten physical lines of a whole text: the definitions first (as the canonical rendering has them), one way of
+    re-casing references (all lower, all upper, at random per reference) for the whole text"""
+    refcase = rng2.choice(["lower", "lower", "upper", "mixed", "mixed", "mixed"])
+    return (relayout(rng, elab, [it for it in items if it[0] == "define"], None, rng2=rng2, refcase=refcase)
+            + relayout(rng, elab, [it for it in items if it[0] != "define"], None, rng2=rng2, refcase=refcase))
+
+
+def relayout(rng, elab, items, tyname=None, depth=0, rng2=None, refcase="mixed"):
+    """rewritten physical lines for an item tree.  The rewrites drawn from the second generator: the letter case of the
+    references in values, and a blank / comment line AFTER an item's lines (after the last item of a section or of the text too)"""
+    if rng2 is None:
+        rng2 = random.Random(repr(items))       # (no draw taken from the first generator)
     children, kt = cfggen._children_of(elab, tyname)
     items = list(items)
     # reorder lines of different keys, keeping the relative order of repeated keys, of sections, and of define/use
@@ -64,7 +126,8 @@ def relayout(rng, elab, items, tyname=None, depth=0):
             key = it[1]
             if (kt or "basic-key") != "identifier" and rng.random() < 0.5:
                 key = cfggen._case_variant(rng, key)
-            lines.append(ind + key + ((rng.choice([" ", "\t", "   "]) + it[2]) if it[2] != "" else "") + tail)
+            val = recase_refs(rng2, it[2], refcase) if ("$" in it[2] and (refcase != "mixed" or rng2.random() < 0.6)) else it[2]
+            lines.append(ind + key + ((rng.choice([" ", "\t", "   "]) + val) if val != "" else "") + tail)
         elif it[0] == "sect":
             _, ty, nm, sub, empty = it
             ty2 = cfggen._case_variant(rng, ty) if rng.random() < 0.5 else ty
@@ -74,12 +137,15 @@ def relayout(rng, elab, items, tyname=None, depth=0):
                 lines.append(ind + "<" + hdr + rng.choice(["/>", " />", "\t/>"]) + tail)
             else:
                 lines.append(ind + "<" + hdr + rng.choice(["", " "]) + ">" + tail)
-                lines.extend(relayout(rng, elab, sub, ty.lower(), depth + 1))
+                lines.extend(relayout(rng, elab, sub, ty.lower(), depth + 1, rng2, refcase))
                 lines.append(ind + "</" + (cfggen._case_variant(rng, ty) if rng.random() < 0.5 else ty) + rng.choice(["", " "]) + ">" + tail)
         elif it[0] == "define":
-            lines.append(ind + "%define" + rng.choice([" ", "\t"]) + cfggen._case_variant(rng, it[1]) + (" " + it[2] if it[2] else "") + tail)
+            val = recase_refs(rng2, it[2], refcase) if ("$" in it[2] and (refcase != "mixed" or rng2.random() < 0.6)) else it[2]
+            lines.append(ind + "%define" + rng.choice([" ", "\t"]) + cfggen._case_variant(rng, it[1]) + (" " + val if val else "") + tail)
         elif it[0] == "raw":
             lines.append(ind + it[1] + tail)
+        if rng2.random() < 0.15:
+            lines.append(edge_filler(rng2))
     return lines
 
 
@@ -102,6 +168,55 @@ def add_define_items(rng, items):
     return items
 
 
+def _key_datatype(children, kt, key):
+    """the datatype that converts the value of a key line: that of the fixed key of this name, else of the arbitrary key"""
+    dt = None
+    for _, info in children:
+        if info[0] == "key":
+            if info[1] == cfggen._norm(kt, key):
+                return info[5]
+            if info[1] == "+":
+                dt = info[5]
+    return dt
+
+
+def add_edge_values(rng, elab, items, p=0.5):
+    """gives (in place) the keys whose datatype converts every text, with probability p each, a value whose last character
+    is a punctuation mark (edge_value); returns the number of values replaced"""
+    n = 0
+    for cont, tyname in cfggen._containers(items, None, []):
+        children, kt = cfggen._children_of(elab, tyname)
+        if children is None:
+            continue
+        for it in cont:
+            if it[0] == "kv" and _key_datatype(children, kt, it[1]) in FREE_TEXT and rng.random() < p:
+                it[2] = edge_value(rng)
+                n += 1
+    return n
+
+
+def values_by_reference(rng, items, p=0.4):
+    """gives (in place) values of keys - of any datatype, at any depth - THROUGH a definition: the value moves into a
+    '%define' at the head of the text (now and then by way of a second definition whose entire value is a reference to the
+    first) and the ENTIRE value of the key becomes one reference, plain or braced, to the mixed-case name in some letter case.
+    What the key gets is the text it had.  Returns the number of values rewritten"""
+    defs = []
+    for cont, _ in cfggen._containers(items, None, []):
+        for it in cont:
+            if it[0] == "kv" and rng.random() < p:
+                name = "LayV%d" % len(defs)
+                if rng.random() < 0.25:
+                    defs.append(["define", name + "_src", it[2]])
+                    defs.append(["define", name, rng.choice(["$%s_src", "${%s_src}", "$%s_SRC"]) % name])
+                else:
+                    defs.append(["define", name, it[2]])
+                ref = rng.choice([name, name, name.lower(), name.upper(), cfggen._case_variant(rng, name)])
+                it[2] = ("${%s}" if rng.random() < 0.3 else "$%s") % ref
+    at = max([i + 1 for i, it in enumerate(items) if it[0] == "define"] or [0])     # (a moved value may refer to an earlier definition)
+    items[at:at] = defs
+    return sum(1 for d in defs if not d[1].endswith("_src"))
+
+
 def odd_spelled_keys(elab, items):
     """the key lines of the item tree that address a fixed key which the section type lists in a spelling its own key type
     does not produce (inherited from a base type with another key type): [type, key as listed, key as written]"""
@@ -120,11 +235,10 @@ def odd_spelled_keys(elab, items):
 def _pair_outcome(real, elab, items, overrides, seed):
     """canonical and re-laid-out rendering (layout drawn from the given seed) of an item tree on the real loader (fresh
     loaders, from streams); None when they agree, else the two texts and outcomes"""
-    import random
     r = random.Random(seed)
+    r2 = random.Random("second/%s" % seed)
     la = canon_lines(items)
-    lb = (relayout(r, elab, [it for it in items if it[0] == "define"], None)
-          + relayout(r, elab, [it for it in items if it[0] != "define"], None))
+    lb = relayout_text(r, elab, items, r2)
     oa, va, _ = cfgrun.real_load(real, "\n".join(la) + "\n", overrides=overrides, reuse=False)
     ob, vb, _ = cfgrun.real_load(real, "\n".join(lb) + "\n", overrides=overrides, reuse=False)
     if "internal" in (oa[0], ob[0]) or "dtexc" in (oa[0], ob[0]):
@@ -192,7 +306,6 @@ def canon_lines(items):
         if it[0] == "define":
             out.append("%define " + it[1] + (" " + it[2] if it[2] else ""))
     rest = [it for it in items if it[0] != "define"]
-    import random
     return out + cfggen.render_lines(random.Random(0), rest, plain=True)
 
 
@@ -204,7 +317,9 @@ COMPONENT_TEXTS = [
       ["sect", "logger", None, [["kv", "name", "a.b"], ["kv", "level", "WARN"], ["kv", "propagate", "no"]], False]]),
     ("<schema><import package='ZConfig.components.basic' file='mapping.xml'/><sectiontype name='m' extends='ZConfig.basic.mapping'/>"
      "<section type='m' name='*' attribute='m'/></schema>",
-     [["sect", "m", None, [["kv", "alpha", "1"], ["kv", "Beta-x", "two words"], ["kv", "g.1", ""]], False]]),
+     [["define", "DocRoot", "C:\\data\\docs\\"],
+      ["sect", "m", None, [["kv", "alpha", "1"], ["kv", "Beta-x", "two words"], ["kv", "g.1", ""], ["kv", "root", "$DocRoot"],
+                           ["kv", "share", "\\\\srv\\pub\\"], ["kv", "index", "${DocRoot}index.html"]], False]]),
 ]
 
 
@@ -218,10 +333,31 @@ def run(ctx):
     # wildcard key): under a case-insensitive key type every letter case of such a key line must fare alike
     n_o, n_ot = (300, 20) if ctx.thorough() else (30, 10)
     over = cfgstream.gen_cases(ctx, n_o, n_ot, nfaults=(0, 0, 0, 1), systematic=False, schema_hook=cfggen.add_keytype_override)
+    # free-text values ending in a punctuation mark (above all the marks read elsewhere as "continued on the next line") and
+    # values given through a definition, one mixed-case reference being the entire value
+    n_e, n_et = (400, 20) if ctx.thorough() else (40, 15)
+    # (this stream and the rewrites added with it draw from generators of their own: the two older streams stay as they were)
+    rng_old, rng_edge, rng2 = rng, random.Random("C15/edge/%s" % ctx.seed), random.Random("C15/second/%s" % ctx.seed)
+    ctx.rng = rng_edge
+    try:
+        edge = cfgstream.gen_cases(ctx, n_e, n_et, nfaults=(0, 0, 0, 1), systematic=False)
+    finally:
+        ctx.rng = rng_old
     A, B = [], []
-    for c in base + over:
-        items = add_define_items(rng, copy.deepcopy(c.meta["items"]))
+    for c in base + over + edge:
+        is_edge = len(A) >= len(base) + len(over)
+        rng = rng_edge if is_edge else rng_old
+        items = copy.deepcopy(c.meta["items"])
+        if not is_edge or rng.random() < 0.25:
+            items = add_define_items(rng, items)
         classes = []
+        if is_edge:
+            if add_edge_values(rng, c.elab, items, 0.5):
+                classes.append("value-ending-in-punctuation")
+                if any(it[0] == "kv" and it[2].endswith("\\") for cont, _ in cfggen._containers(items, None, []) for it in cont):
+                    classes.append("value-ending-in-backslash")
+            if rng.random() < 0.7 and values_by_reference(rng, items, 0.4):
+                classes.append("whole-value-reference")
         # ... and arbitrary keys ('+') named like a section of the same container: key lines before / between / after it
         if not c.faults or rng.random() < 0.3:
             if cfggen.add_namesake_keys(rng, c.elab, items, 0.6):
@@ -235,9 +371,9 @@ def run(ctx):
         a.lines = canon_lines(items)
         b = cfgstream.Case()
         b.sd, b.real, b.elab, b.hnames = c.sd, c.real, c.elab, c.hnames
-        defs = [it for it in items if it[0] == "define"]
-        rest = [it for it in items if it[0] != "define"]
-        b.lines = relayout(rng, c.elab, defs, None) + relayout(rng, c.elab, rest, None)
+        b.lines = relayout_text(rng, c.elab, items, rng2)
+        if any(re.match(r"\s*#.*\\\s*$", l) for l in b.lines):
+            ctx.count("rewritten-with-comment-ending-in-backslash")
         if rng.random() < 0.3 and not c.faults:
             # ... also when command-line overrides address keys that the text spells in another letter case
             from .. import ovgen
@@ -276,6 +412,8 @@ def run(ctx):
             sig = "C15:%s-vs-%s" % (a.out[0], b.out[0])
             rep = dict(a.replay(), rewritten=b.lines, canonical_outcome=a.out, rewritten_outcome=b.out,
                        input_classes=a.meta["classes"], keys_registered_in_another_spelling=a.meta["odd"],
+                       lines_ending_in_a_continuation_mark=[l for l in a.lines + b.lines if l.strip()[-1:] in ("\\", "^", "`", "&", "_", ",", "+", "-", "|")],
+                       whole_value_references=[l for l in a.lines + b.lines if re.match(r"\s*\S+\s+\$(\w+|\{\w+\})\s*$", l)],
                        canonical_value=cfgrun.describe(a.cfg) if a.out[0] == "ok" else None,
                        rewritten_value=cfgrun.describe(b.cfg) if b.out[0] == "ok" else None)
             if sig not in shrunk and len(shrunk) < 4:
@@ -286,6 +424,7 @@ def run(ctx):
                     rep["shrunk"] = small
                     ctx.count("violations-shrunk")
             ctx.violate("layout rewrite changed the outcome: %s vs %s" % (a.out[:2], b.out[:2]), rep, signature=sig)
+    rng = rng_old
     # shipped components (real vs real only)
     import ZConfig
     for xml, items in COMPONENT_TEXTS:
@@ -294,7 +433,7 @@ def run(ctx):
         oa, va, _ = cfgrun.real_load(schema, "\n".join(ca) + "\n")
         for _ in range(200 if ctx.thorough() else 30):
             # the key type of both components is basic-key: keys are case-insensitive
-            lb = relayout(rng, [None, [], [None, None, "basic-key", None, []]], copy.deepcopy(items), None)
+            lb = relayout(rng, [None, [], [None, None, "basic-key", None, []]], copy.deepcopy(items), None, rng2=rng2)
             ob, vb, _ = cfgrun.real_load(schema, "\n".join(lb) + "\n")
             ctx.evaluations += 1
             ctx.nontriv(("component", tuple(lb)))
